@@ -196,6 +196,8 @@ def _predicate_body(fi: FuncInfo) -> Optional[List[Tuple[List[Tuple[ast.AST, boo
         for i, s in enumerate(stmts):
             if isinstance(s, ast.Expr) and isinstance(s.value, ast.Constant):
                 continue  # docstring
+            if isinstance(s, ast.Expr) and isinstance(s.value, ast.Call) and isinstance(s.value.func, ast.Attribute) and s.value.func.attr in ("info", "debug", "warning", "error", "log") and "logging" in ast.unparse(s.value.func.value):
+                continue  # a log message: says something, decides nothing
             if isinstance(s, (ast.Assign, ast.AnnAssign)) and s.value is not None:
                 tg = s.targets[0] if isinstance(s, ast.Assign) and len(s.targets) == 1 else (s.target if isinstance(s, ast.AnnAssign) else None)
                 # the expression is only *named*: substituting it is sound for deterministic, effect-free expressions; calls
@@ -760,14 +762,14 @@ def returns_ast(ctx: TermCtx, fi: FuncInfo) -> bool:
 
 
 # ---------------------------------------------------------------------------------- role-based discovery
-def view(model: Model, fi: Optional[FuncInfo], keep=(), hoist_tests: bool = False) -> Optional[FuncInfo]:
+def view(model: Model, fi: Optional[FuncInfo], keep=(), hoist_tests: bool = False, comp_loops: bool = False) -> Optional[FuncInfo]:
     """the normalised view of a function (sa/normalise.py): private helpers it returns through / calls as procedures
     inlined, literal dispatch tables read as if-chains. Reports still name the real function."""
     if fi is None:
         return None
     from .normalise import unrolled
 
-    return unrolled(model, fi, frozenset(keep), hoist_tests)
+    return unrolled(model, fi, frozenset(keep), hoist_tests, comp_loops)
 
 
 def private_callees(model: Model, fi: FuncInfo) -> List[FuncInfo]:
@@ -785,7 +787,8 @@ def private_callees(model: Model, fi: FuncInfo) -> List[FuncInfo]:
         if g is None or g is fi or g in out:
             continue
         nested = g.parent_func is fi
-        private_fn = (g.module is fi.module and g.name.startswith("_") and not g.name.startswith("__")) or (g.cls is None and g.is_private and not g.name.startswith("_"))
+        in_private_module = g.module.name.rsplit(".", 1)[-1].startswith("_") and not g.module.name.rsplit(".", 1)[-1].startswith("__")
+        private_fn = (g.module is fi.module and g.name.startswith("_") and not g.name.startswith("__")) or (g.cls is None and g.is_private and in_private_module)
         # a method of a class that itself lives inside a function cannot be called from outside: private in effect
         # (the visitor protocol's own entry points are not helpers)
         inner_method = g.cls is not None and g.cls is fi.cls and g.parent_func is not None and not g.name.startswith(("visit_", "call_", "__")) and g.name not in ("visit", "generic_visit")
